@@ -485,7 +485,11 @@ def rule_identity_per_mapping(ctx, R="C08/identity-per-mapping"):
     # the file fallback inside the or_else closure names the same mapping it failed for
     for c in ctx.prog.closures_of(b):
         co = Origin(c)
-        for x, t in c.calls(lambda cc: (cc.short or "").endswith("ReadFromModule>::read_from_file") or (cc.short or "").endswith("::read_from_file")):
+        for x, t in c.calls(lambda cc: (cc.short or "").endswith("::read_from_file")):
+            cvx = CalleeView(t["callee"])
+            ctx.check(cvx.short == "linux::module_reader::ReadFromModule::read_from_file", R, ("fallback", "trait-reader"), c.where(x),
+                      "the file fallback goes through ReadFromModule::read_from_file (the same reader as the in-memory attempt)",
+                      "the file fallback calls %s, not ReadFromModule::read_from_file: an inherent function of the same name takes precedence over the trait's" % cvx.short)
             e = co.call_args(x)[0]
             names = [q for q in walk(e) if q[0] == "field" and q[2] == "name"]
             ok = bool(names) and all(any(s_[0] == "call" and s_[1].endswith("Index<I>>::index") for s_ in walk(q)) and all(r_[0] != "param" or r_ == ("param", 1) for r_ in walk(q) if r_[0] == "param") for q in names)
